@@ -525,6 +525,35 @@ impl<'a> Interp<'a> {
         self.all_full_reads("after delete_partitions")
     }
 
+    /// delete ALL partitions, then create `k` new ones: the topic is without partitions for a moment and every
+    /// per-partition state (log, offsets, ids seen) starts over
+    fn op_replace_parts(&mut self, k: u8) -> Check {
+        if self.wrong_key {
+            return Ok(());
+        }
+        let prop = self.focus().to_string();
+        let k = k.clamp(1, 3) as u32;
+        let all = self.parts.len() as u32;
+        let n = self.node();
+        let r = n.block_on(async {
+            self.cl().delete_partitions(&sid(), &tid(), all).await?;
+            self.cl().create_partitions(&sid(), &tid(), k).await
+        });
+        self.check_panics("delete all partitions / create partitions")?;
+        if let Err(e) = r {
+            return Err(self.fail(&prop, "replace-partitions-failed", format!("delete_partitions({all}) + create_partitions({k}) failed: {e}")));
+        }
+        self.parts.clear();
+        for _ in 0..k {
+            self.parts.push(MPart::default());
+        }
+        self.balanced_run.clear();
+        self.refused_balanced = 0;
+        self.epoch += 1;
+        self.out.label("all-partitions-replaced");
+        self.all_full_reads("after replacing all partitions")
+    }
+
     // ------------------------------------------------------------ C16 counters
 
     fn counts_check(&mut self, why: &str) -> Check {
